@@ -312,7 +312,7 @@ func stateHash(st *State) uint64 { return hashOf(st.hash(), st.TxnCount, fmt.Spr
 
 func (s *snapStream) restoreFrom(data []byte) restoreOutcome {
 	return guarded(func() restoreOutcome {
-		c, err := s.wd.buildLike(s.wd.Cap, nil, false, -1)
+		c, err := s.wd.buildLike(64, nil, false, -1) // (capacities are C07's subject; a small one keeps the loop's allocation rate down)
 		if err != nil {
 			panic(err)
 		}
@@ -472,7 +472,7 @@ func truncSnapshotCase(w *W, idx int) {
 	}
 	// first k whole blocks of E_0 (what a failed state read may leave behind)
 	e0 := func() *State {
-		c, _ := s.wd.buildLike(s.wd.Cap, nil, false, -1)
+		c, _ := s.wd.buildLike(64, nil, false, -1)
 		defer c.Close()
 		c.Restore(bytes.NewReader(state))
 		return dumpState(c, s.sv)
